@@ -70,6 +70,24 @@ class Gen19(airgen.Gen):
         self.kinds[fn] = kind
         return fn
 
+    # ---- failing left branches of xor -----------------------------------------------------
+    def failing_par(self, sc, d):
+        """(added after the seeded change C19-xor-truncates-next-peers was missed): a par that
+        completes (its other branch is (null) or a local leaf) and has just marked / forwarded a remote call, followed by
+        an instruction that fails catchably IN THE SAME RUN -- the marks of the failed left branch stay in the trace, so
+        their targets must still be among the next peers."""
+        r = self.r
+        if r.random() < 0.4:
+            # the two branches must not depend on each other's definitions (a par branch that reads what its sibling
+            # defines does not even parse when it comes first): the sibling is generated in a copy of the scope
+            side = dict(sc, scalars=dict(sc["scalars"]), streams=list(sc["streams"]), canons=list(sc["canons"]))
+            c1 = self.call(sc)
+            other = "(null)" if r.random() < 0.6 else self.call(side)
+            par = "(par %s %s)" % ((c1, other) if r.random() < 0.7 else (other, c1))
+            tail = r.choice(['(fail %d "user error")' % r.choice([1, 7, 1337]), '(match "a" "b" (null))', '(mismatch 1 1 (null))'])
+            return "(seq %s %s)" % (par, tail)
+        return None
+
     # ---- calls ---------------------------------------------------------------------------
     def call(self, sc, fn=None, out=None, failing_ok=True):
         r = self.r
@@ -126,6 +144,9 @@ class Gen19(airgen.Gen):
 
     def failing(self, sc, d):
         r = self.r
+        special = self.failing_par(sc, d)
+        if special is not None:
+            return special
         k = r.choice(["svc", "svc", "fail_lit", "match", "lens"] if self.p.lenses else ["svc", "fail_lit", "match"])
         if k == "svc":
             tok, addr, kind = self.pick_target(sc)
